@@ -114,12 +114,27 @@ Section worker.
     | Some ps => (w, answers (r_id r) o 0 (fst (pick (o_p0 o) ps)))
     | None =>
       if r_name r =? "HardStop" then
+        (* notify, then what is still queued leaves, then the soft stop being served (if any)
+           is answered, then the hard stop itself; the worker ends *)
         let '(w1, c) := notify w r o in
-        (mkW (w_view w1) (w_base w1) (w_slots w1) (w_stopping w1) false,
-         emit r o c ++ [mkResp (r_id r) SOk])
+        (mkW (w_view w1) (w_base w1) (w_slots w1)
+             (if hard_stop_answers_soft then None else w_stopping w1) false,
+         emit r o c ++
+         (match w_stopping w1 with
+          | Some sid => if hard_stop_answers_soft then [mkResp sid SFailure] else []
+          | None => []
+          end) ++ [mkResp (r_id r) SOk])
       else if r_name r =? "SoftStop" then
-        let w0 := mkW (w_view w) (w_base w) (w_slots w) (Some (r_id r)) (w_alive w) in
-        let '(w1, c) := notify w0 r o in (w1, emit r o c)
+        match w_stopping w with
+        | Some _ =>
+          if second_soft_stop_refused then (w, [mkResp (r_id r) SFailure])
+          else
+            let w0 := mkW (w_view w) (w_base w) (w_slots w) (Some (r_id r)) (w_alive w) in
+            let '(w1, c) := notify w0 r o in (w1, emit r o c)
+        | None =>
+          let w0 := mkW (w_view w) (w_base w) (w_slots w) (Some (r_id r)) (w_alive w) in
+          let '(w1, c) := notify w0 r o in (w1, emit r o c)
+        end
       else
         let '(w1, c) := notify w r o in (w1, emit r o c)
     end.
